@@ -11,18 +11,18 @@
 using namespace sim;
 
 enum { ST_RUNS, ST_OPS, ST_BACKEND_MSGS, F_NRPN_SPLIT, F_MIDI_UNBOUND, F_CLEAR_WHILE_WAITING, F_CLEAR_IDLE_WHILE_OTHERS_WAIT, F_OUT_OF_UNIT_RANGE, F_UNINIT_FILL,
-       P_LEARN_SERVED, P_LEARN_SERVED_AFTER_CLEAR, P_LEARN_NRPN, P_BOUND_CC_DRIVES, P_BOUND_NRPN_DRIVES, P_QUEUE3, P_NEG_GAIN, P_CLAMPED_OUT, P_LOG_PARAM, P_TOGGLE_PARAM, P_INT_PARAM, P_MONO_PAIR, P_SILENT_RELEARN, P_INCOMPLETE_NRPN_WHILE_WAITING, P_LONG_ADDR, P_BIND_REFUSED, ST_N };
+       P_LEARN_SERVED, P_LEARN_SERVED_AFTER_CLEAR, P_LEARN_NRPN, P_BOUND_CC_DRIVES, P_BOUND_NRPN_DRIVES, P_QUEUE3, P_NEG_GAIN, P_CLAMPED_OUT, P_LOG_PARAM, P_TOGGLE_PARAM, P_INT_PARAM, P_MONO_PAIR, P_SILENT_RELEARN, P_INCOMPLETE_NRPN_WHILE_WAITING, P_LONG_ADDR, P_BIND_REFUSED, P_SLOPE, ST_N };
 static const char *STAT_NAMES[ST_N] = { "runs", "ops", "backend_messages", "fault.nrpn_sequence_split_by_other_events", "fault.midi_from_unbound_controller", "fault.clear_of_waiting_slot", "fault.clear_of_idle_slot_while_others_wait", "fault.slot_value_outside_0_1", "fault.manager_memory_prefilled_nonzero",
        "probe.learn_request_served", "probe.learn_served_after_intervening_clear", "probe.learn_bound_to_nrpn", "probe.bound_cc_drives_slot", "probe.bound_nrpn_drives_slot", "probe.learn_queue_length_3", "probe.negative_gain", "probe.output_clamped_to_range",
-       "probe.log_scale_parameter_driven", "probe.toggle_parameter_driven", "probe.int_parameter_driven", "probe.monotonic_pair_checked", "probe.learn_request_on_bound_or_waiting_slot", "probe.incomplete_nrpn_while_slot_waits", "probe.address_of_128_or_more_characters_bound", "probe.binding_of_a_long_address_refused" };
+       "probe.log_scale_parameter_driven", "probe.toggle_parameter_driven", "probe.int_parameter_driven", "probe.monotonic_pair_checked", "probe.learn_request_on_bound_or_waiting_slot", "probe.incomplete_nrpn_while_slot_waits", "probe.address_of_128_or_more_characters_bound", "probe.binding_of_a_long_address_refused", "probe.control_points_set_by_simple_slope" };
 
 enum { K_SLOTS, K_PER, K_FILL, K_N };
-enum { UI_BIND = 0, UI_CLEAR, UI_CLEARSUB, UI_GAIN, UI_OFFSET, HOST_SET, HOST_PAIR, MIDI_CC, MIDI_NRPN };
+enum { UI_BIND = 0, UI_CLEAR, UI_CLEARSUB, UI_GAIN, UI_OFFSET, HOST_SET, HOST_PAIR, MIDI_CC, MIDI_NRPN, UI_SLOPE };
 
 static const char *BINDABLE[] = {"/pi", "/pi_neg", "/pf", "/pf_log", "/pf_unit", "/pt", "/po_b", "/af1", "/sub/sf", "/subs1/si", "/psub/st", "/ai2", "/odd/vol", "/odd/pc_r", "/odd/cut_i", "/odd/pi_big", "/odd/pi_imax", "/odd/pi_narrow", "/odd/a_sub_tree_with_a_name_that_is_much_longer_than_anyone_would_type_by_hand_0123456789/a_parameter_with_a_name_that_is_just_as_unreasonably_long_as_its_parent_s"};
 static const int NBIND = 19;
 
-struct MSub { bool used = false; int leaf = -1; char type = 0; double mn = 0, mx = 0; bool log = false; float gain = 100, offset = 0; };
+struct MSub { bool used = false; int leaf = -1; char type = 0; double mn = 0, mx = 0; bool log = false; float gain = 100, offset = 0; int ovr = 0; /* control points set directly by simpleSlope: +1 rising, -1 not rising; 0: they follow gain and offset */ };
 struct MSlot { std::vector<MSub> subs; int cc = -1, nrpn = -1; };
 
 struct AutoWorld : World {
@@ -41,6 +41,7 @@ struct AutoWorld : World {
         case UI_CLEAR: snprintf(b, sizeof b, "UI:clearSlot(%lld)", (long long)op.a[0]); break;
         case UI_CLEARSUB: snprintf(b, sizeof b, "UI:clearSlotSub(%lld,%lld)", (long long)op.a[0], (long long)op.a[1]); break;
         case UI_GAIN: snprintf(b, sizeof b, "UI:gain(%lld,%lld,%lld)", (long long)op.a[0], (long long)op.a[1], (long long)op.a[2]); break;
+        case UI_SLOPE: snprintf(b, sizeof b, "UI:simpleSlope(%lld,%lld,%.3f span,at %.3f)", (long long)op.a[0], (long long)op.a[1], op.a[2] / 1000.0, op.a[3] / 1000.0); break;
         case UI_OFFSET: snprintf(b, sizeof b, "UI:offset(%lld,%lld,%lld)", (long long)op.a[0], (long long)op.a[1], (long long)op.a[2]); break;
         case HOST_SET: snprintf(b, sizeof b, "HOST:setSlot(%lld,%.3f)", (long long)op.a[0], op.a[1] / 1000.0); break;
         case HOST_PAIR: snprintf(b, sizeof b, "HOST:pair(%lld,%.3f<%.3f)", (long long)op.a[0], op.a[1] / 1000.0, op.a[2] / 1000.0); break;
@@ -69,7 +70,8 @@ struct AutoWorld : World {
             Op o; double u = pr.unit() * tot;
             if ((u -= w_bind) < 0) { o.kind = UI_BIND; o.a[0] = pr.below(ns); o.a[1] = pr.below(NBIND); o.a[2] = pr.chance(0.65); }
             else if ((u -= w_clear) < 0) { if (pr.chance(0.7)) { o.kind = UI_CLEAR; o.a[0] = pr.below(ns); } else { o.kind = UI_CLEARSUB; o.a[0] = pr.below(ns); o.a[1] = pr.below(per); } }
-            else if ((u -= w_map) < 0) { o.kind = pr.chance(0.5) ? UI_GAIN : UI_OFFSET; o.a[0] = pr.below(ns); o.a[1] = pr.below(per); o.a[2] = o.kind == UI_GAIN ? (pr.chance(0.2) ? -(int64_t)pr.below(200) : (int64_t)pr.below(301)) : (int64_t)pr.below(201) - 100; }
+            else if ((u -= w_map) < 0) { o.kind = pr.chance(0.5) ? UI_GAIN : UI_OFFSET; o.a[0] = pr.below(ns); o.a[1] = pr.below(per); o.a[2] = o.kind == UI_GAIN ? (pr.chance(0.2) ? -(int64_t)pr.below(200) : (int64_t)pr.below(301)) : (int64_t)pr.below(201) - 100;
+                if (pr.chance(0.25)) { o.kind = UI_SLOPE; o.a[2] = pr.chance(0.2) ? -(int64_t)pr.below(1500) : pr.chance(0.3) ? 1000 : (int64_t)pr.below(1501); o.a[3] = pr.chance(0.3) ? 500 : (int64_t)pr.below(1501) - 250; } }
             else if ((u -= w_host) < 0) { o.a[0] = pr.below(ns);
                 auto val = [&]() -> int64_t { double s = pr.unit(); return s < 0.1 ? 0 : s < 0.2 ? 1000 : s < 0.3 ? 500 : s < 0.85 ? (int64_t)pr.below(1001) : (int64_t)pr.below(4001) - 1500; };
                 if (pr.chance(0.35)) { o.kind = HOST_PAIR; o.a[1] = val(); o.a[2] = val(); if (o.a[1] > o.a[2]) std::swap(o.a[1], o.a[2]); } else { o.kind = HOST_SET; o.a[1] = val(); } }
@@ -116,7 +118,7 @@ struct AutoWorld : World {
                 double tol = s.log ? 1e-5 * std::max(fabs(s.mn), fabs(s.mx)) : 0;
                 if (!(out >= s.mn - tol && out <= s.mx + tol)) { snprintf(b, sizeof b, "op %d: %s driven with %.9g outside its declared range [%g,%g] (slot value %g, gain %g, offset %g)", opi, mm, out, s.mn, s.mx, v, s.gain, s.offset); fail("RANGE", b); return false; }
                 if (s.type == 'i' || s.type == 'c') stat_add(P_INT_PARAM); if (s.log) stat_add(P_LOG_PARAM);
-                if (s.gain == 100 && s.offset == 0 && v >= 0 && v <= 1) {     // default mapping: linear 0..1 -> min..max
+                if (s.ovr == 0 && s.gain == 100 && s.offset == 0 && v >= 0 && v <= 1) {     // default mapping: linear 0..1 -> min..max
                     double e = s.log ? exp(log(s.mn) + v * (log(s.mx) - log(s.mn))) : s.mn + (double)v * (s.mx - s.mn);
                     bool ok;
                     if (s.type == 'i' || s.type == 'c') { double tolr = 1e-4 * (fabs(s.mx - s.mn) + 1) + 4e-7 * (fabs(s.mn) + fabs(s.mx) + fabs(e)); ok = fabs(out - e) <= 0.5 + tolr; }   // rounded to the nearest integer; the map runs through single-precision control points (as for floats: their resolution at the bounds' magnitude is granted)
@@ -177,7 +179,7 @@ struct AutoWorld : World {
                     MSub &s = ms[slot].subs[free_sub]; s.used = true; s.leaf = leaf_of(path); const app::Leaf &l = L[s.leaf];
                     s.type = l.kind == app::K_PARAM_F ? 'f' : l.kind == app::K_TOGGLE ? 'T' : l.kind == app::K_PARAM_C ? 'c' : 'i';
                     if (s.type == 'T') { s.mn = 0; s.mx = 1; } else if (s.type == 'f') { s.mn = (float)atof(l.mn); s.mx = (float)atof(l.mx); } else { s.mn = atof(l.mn); s.mx = atof(l.mx); }   // integer bounds are exact (not every int is a float)
-                    s.log = l.log_scale; s.gain = 100; s.offset = 0;
+                    s.log = l.log_scale; s.gain = 100; s.offset = 0; s.ovr = 0;
                     if (learn) {
                         bool waiting = std::find(fifo.begin(), fifo.end(), slot) != fifo.end(); bool bound = ms[slot].cc != -1 || ms[slot].nrpn != -1;
                         if (!waiting && !bound) { fifo.push_back(slot); cleared_since_request[slot] = false; if (fifo.size() >= 3) stat_add(P_QUEUE3); }
@@ -195,15 +197,19 @@ struct AutoWorld : World {
             case UI_CLEARSUB: { int sub = (int)(((op.a[1] % per) + per) % per); ms[slot].subs[sub] = MSub(); mgr->clearSlotSub(slot, sub); break; }
             case UI_GAIN: case UI_OFFSET: {
                 int sub = (int)(((op.a[1] % per) + per) % per); float val = (float)std::max<int64_t>(-400, std::min<int64_t>(op.a[2], 400));
-                if (op.kind == UI_GAIN) { mgr->setSlotSubGain(slot, sub, val); ms[slot].subs[sub].gain = val; if (val < 0) stat_add(P_NEG_GAIN); } else { mgr->setSlotSubOffset(slot, sub, val); ms[slot].subs[sub].offset = val; }
+                if (op.kind == UI_GAIN) { mgr->setSlotSubGain(slot, sub, val); ms[slot].subs[sub].gain = val; if (val < 0) stat_add(P_NEG_GAIN); } else { mgr->setSlotSubOffset(slot, sub, val); ms[slot].subs[sub].offset = val; } ms[slot].subs[sub].ovr = 0;   /* (updateMapping below puts the control points back under gain and offset) */
                 mgr->updateMapping(slot, sub); break; }
+            case UI_SLOPE: {   // the other way to shape a sub-automation: control points from a slope and an offset in parameter units (gain and offset stay as they are)
+                int sub = (int)(((op.a[1] % per) + per) % per); MSub &m = ms[slot].subs[sub]; double span = m.used ? m.mx - m.mn : 1.0, lo = m.used ? m.mn : 0.0;
+                float slope = (float)(span * (double)std::max<int64_t>(-1500, std::min<int64_t>(op.a[2], 1500)) / 1000.0), off = (float)(lo + span * (double)std::max<int64_t>(-250, std::min<int64_t>(op.a[3], 1250)) / 1000.0);
+                mgr->simpleSlope(slot, sub, slope, off); if (m.used) { m.ovr = slope > 0 ? 1 : -1; stat_add(P_SLOPE); } break; }
             case HOST_SET: { float v = op.a[1] / 1000.0f; if (v < 0 || v > 1) stat_add(F_OUT_OF_UNIT_RANGE); mgr->setSlot(slot, v); expect_drive(opi, slot, v, nullptr); break; }
             case HOST_PAIR: {
                 float v1 = op.a[1] / 1000.0f, v2 = op.a[2] / 1000.0f; std::vector<double> o1, o2;
                 mgr->setSlot(slot, v1); expect_drive(opi, slot, v1, &o1); outbox.clear();
                 mgr->setSlot(slot, v2); expect_drive(opi, slot, v2, &o2);
                 if (res.cls.empty() && v1 <= v2 && o1.size() == o2.size()) { size_t q = 0;
-                    for (auto &s : ms[slot].subs) if (s.used) { if (s.gain > 0) { stat_add(P_MONO_PAIR); if (o2[q] < o1[q]) { snprintf(b, sizeof b, "op %d: slot %d, %s: value fell from %.9g to %.9g when the slot value rose from %g to %g (gain %g)", opi, slot, L[s.leaf].addr.c_str(), o1[q], o2[q], v1, v2, s.gain); fail("MONOTONIC", b); } } q++; } }
+                    for (auto &s : ms[slot].subs) if (s.used) { if (s.ovr ? s.ovr > 0 : s.gain > 0) { stat_add(P_MONO_PAIR); if (o2[q] < o1[q]) { snprintf(b, sizeof b, "op %d: slot %d, %s: value fell from %.9g to %.9g when the slot value rose from %g to %g (gain %g)", opi, slot, L[s.leaf].addr.c_str(), o1[q], o2[q], v1, v2, s.gain); fail("MONOTONIC", b); } } q++; } }
                 break; }
             case MIDI_CC: {
                 int ch = (int)(((op.a[0] % 16) + 16) % 16), cc = (int)(((op.a[1] % 128) + 128) % 128), val = (int)(((op.a[2] % 128) + 128) % 128);
